@@ -29,6 +29,8 @@ TIERS = {
     "thorough": {0: 1152, 1: 216, 2: 216, 3: 144, 4: 216, 5: 600, 6: 3000, 7: 720},
 }
 CHUNK_SCALE = {"quick": 1, "thorough": 4}
+# parallel TLC processes (one per trace chunk, -workers 1 each)
+JOBS = int(os.environ.get("VERIF_C14_JOBS", str(V.NCPU)))
 # coverage cells that must be non-empty (no vacuity): prefixes of "op|stratum" keys
 REQUIRED = ["fit1d|PL|", "fit1d|FDC11|", "fit1d|FDC22|", "fit1d|FDC12|", "fit1d|MD522|", "fit1d|MD533|", "fit1d|MD622|",
             "fit1d|MD633|", "fit1d|MD644|",
@@ -89,7 +91,7 @@ def validate(oc, traces, workdir, scale=1, timeout=3000):
         for cp, first in chunks:
             work.append((cp, first, meta, lines))
     work.sort(key=lambda w: -os.path.getsize(w[0]))
-    with cf.ThreadPoolExecutor(V.NCPU) as ex:
+    with cf.ThreadPoolExecutor(JOBS) as ex:
         futs = {ex.submit(V.validate_chunk, "TraceFit", "TraceFit.cfg", cp, workdir, timeout): (cp, first, meta, lines)
                 for cp, first, meta, lines in work}
         for f in cf.as_completed(futs):
@@ -175,7 +177,7 @@ def check(prop, tier, seed, replay=None):
             only = os.environ.get("VERIF_C14_PARTS")   # development aid: restrict the run to some harness parts
             if only:
                 parts = [p for p in parts if str(p) in only.split(",")]
-            with cf.ThreadPoolExecutor(V.NCPU) as ex:
+            with cf.ThreadPoolExecutor(min(JOBS, 8)) as ex:
                 exes = list(ex.map(exe_of, parts))
             for part, exe in zip(parts, exes):
                 out = os.path.join(workdir, f"part{part}.ndjson")
